@@ -208,20 +208,52 @@ def dist_terms_rule(ctx):
     else:
         res.undecide("ConditionalDiagonalNormal._compute_params", "does not return (means, log_stds)")
     lp = cdn.methods.get("_log_prob")
-    oklp = False
+    # roles of the two components of _compute_params, read off the monomial normal form of the
+    # log-density: the component under exp^-2 inside the square and in the subtracted sum is the
+    # log-std, the one subtracted from the inputs is the mean -- in any spelling
+    from ..prodnf import NotMonomial, additive_terms
+
+    c0 = "__component__(self._compute_params(context), 0)"
+    c1 = "__component__(self._compute_params(context), 1)"
+    verdict = None
     for pp in paths_of(lp.node):
         if pp.kind != "return":
             continue
-        t = norm_text(pp.ret)
-        c0 = "__component__(self._compute_params(context), 0)"
-        c1 = "__component__(self._compute_params(context), 1)"
-        # (inputs - means) * exp(-log_stds); - sum(log_stds)
-        if ("(inputs - %s) * torch.exp(-%s)" % (c0, c1)) in t and ("sum_except_batch(%s" % c1) in t:
-            oklp = True
-    if oklp:
+        try:
+            terms = additive_terms(pp.ret)
+        except NotMonomial:
+            continue
+        centre = scale = summed = None
+        for c, m in terms:
+            for atom, k in m.items():
+                if atom[0] != "sum":
+                    continue
+                inner = dict(atom[1])
+                lins = [a for a in inner if a[0] == "lin"]
+                exps = [a for a in inner if a[0] == "exp"]
+                if lins and exps:
+                    for mm, cc in lins[0][1]:
+                        t = [a[1] for a, kk in mm if a[0] == "leaf"]
+                        if cc == -1 and t:
+                            centre = t[0]
+                    t = [a[1] for a, kk in exps[0][1] if isinstance(a, tuple) and a[0] == "leaf"]
+                    scale = t[0] if t else None
+                elif not lins and not exps and len(inner) == 1:
+                    a = next(iter(inner))
+                    if a[0] == "leaf":
+                        summed = a[1]
+        if centre is None or scale is None or summed is None:
+            continue
+        if (centre, scale, summed) == (c0, c1, c1):
+            verdict = "ok"
+        elif {centre, scale, summed} <= {c0, c1}:
+            verdict = "swapped: the inputs are centred with `%s`, scaled with exp of `%s`, and `%s` is summed" % (centre[-3:], scale[-3:], summed[-3:])
+    if verdict == "ok":
         res.ok("ConditionalDiagonalNormal._log_prob: component 0 is the mean, component 1 the log-std")
+    elif verdict is None:
+        res.undecide("ConditionalDiagonalNormal._log_prob", "cannot read the roles of the two parameter components off the log-density")
     else:
-        res.fail(Finding("DIST-TERMS", lp.module, lp.qualname, lp.node, "_log_prob must standardise with (inputs - means) * exp(-log_stds) and subtract sum(log_stds), with means / log_stds the first / second component of _compute_params", construct="parameter roles in _log_prob"))
+        res.fail(Finding("DIST-TERMS", lp.module, lp.qualname, lp.node, "_log_prob must standardise with (inputs - means) * exp(-log_stds) and subtract sum(log_stds), with means / log_stds the first / second component of _compute_params (%s)" % verdict, construct="parameter roles in _log_prob"))
     s = cdn.methods.get("_sample")
     oksmp = False
     for pp in paths_of(s.node):
